@@ -30,7 +30,7 @@ ANCHORS = ['recursiveloader:ManifestLoader.verify_and_load',
            'verify:verify_path']
 REQUIRED = ['recursiveloader:ManifestLoader.verify_and_load', 'chain_invariant_checks',
             'api:assert_directory_verifies-root', 'api:find_dist_entry',
-            'baseline_accepts']
+            'baseline_accepts', 'stealth_cases_judged', 'weak_cases_judged']
 ASSUMPTIONS = ['update mode deliberately loads without verification; only loaders '
                'that were not asked to update are covered',
                'the attacker cannot produce hash collisions']
@@ -253,6 +253,10 @@ def run_case(ctx, root, case, layout, dirs, chain, files):
                   tuple(layout['mans'][c]['fmt'] for c in chain)),
              case=case, klass=api)
     ctx.count('api:' + api)
+    if case.get('stealth'):
+        ctx.count('stealth_cases_judged')
+    if case.get('weak'):
+        ctx.count('weak_cases_judged')
     m = ManifestRecursiveLoader(top, verify_openpgp=False)
     result = None
     try:
